@@ -64,6 +64,8 @@ def gen_hosts(rng, stream):
                 hosts.add(rng.choice(["foo", "bar", "login", "a-b", "x", "mgmt.site"]))
             continue
         prefix = "" if fam == "numonly" else rng.choice(["n", "node", "r2d", "c-", "x.y", "a1b", "n", "rack3n"])
+        if fam == "numonly" and rng.random() < 0.4:
+            hosts.add("0")          # the name `0` (Perl: the only non-empty string that is false)
         lo = rng.choice([0, 0, 1, 7, 8, 9, 95, 97, 98, 99, 998, rng.randrange(0, 1200),
                          rng.choice([10 ** 9, 10 ** 13 + 5, 99999, 999999999999])])
         span = rng.randrange(1, 8)
@@ -511,6 +513,118 @@ class Judge:
         return res
 
 
+BRANCHES = [
+    # process_lines regex
+    "line:ignored(no tag)", "line:blanks-before-tag", "line:blanks-before-colon", "line:no-blank-after-colon",
+    "line:empty-body", "line:body-with-colon", "line:last-without-newline",
+    # output functions
+    "mode:report", "mode:-c", "mode:-d", "-c:hosts-merged", "-c:singleton-header", "-c:several-blocks",
+    # compress / compress_inner / comp
+    "hdr:digit-free-name", "hdr:plain-name-with-number", "hdr:bracket-list", "hdr:range a-b", "hdr:padded-range",
+    "hdr:bridge(padded lo, wider hi)", "hdr:mixed padding classes in one bracket", "hdr:several-suffix-groups",
+    "hdr:several-prefixes", "hdr:suffix-after-number", "hdr:numeric-only-name", "hdr:name-0", "hdr:digits-inside-prefix",
+    "hdr:same number in two paddings", "hdr:range-limit-split(LONGRUN)", "hdr:several-brackets-one-prefix(MANYRANGES)",
+]
+
+
+def branches_of(c, r):
+    b = set()
+    raw = c["input"].decode("latin-1")
+    lines = raw.split("\n")
+    if lines and lines[-1] != "":
+        b.add("line:last-without-newline")
+    tags = {t for t, _ in c["recs"]}
+    for l in lines:
+        if l == "" and l is lines[-1]:
+            continue
+        m = re.match(r"^(\s*)(\S+?)(\s*):( ?)(.*)$", l, re.S)
+        if not m:
+            b.add("line:ignored(no tag)")
+            continue
+        if m.group(1):
+            b.add("line:blanks-before-tag")
+        if m.group(3):
+            b.add("line:blanks-before-colon")
+        if not m.group(4):
+            b.add("line:no-blank-after-colon")
+        if m.group(5) == "":
+            b.add("line:empty-body")
+        if ":" in m.group(5):
+            b.add("line:body-with-colon")
+    b.add({"n": "mode:report", "c": "mode:-c", "d": "mode:-d"}[c["mode"]])
+    if c["mode"] == "c" and r["rc"] == 0:
+        if len(r["blocks"]) > 1:
+            b.add("-c:several-blocks")
+        for h, _ in r["blocks"]:
+            words = expand_top(h)
+            b.add("-c:hosts-merged" if (len(words) > 1 or "[" in h) else "-c:singleton-header")
+            sufs, pres = set(), {}
+            for w in words:
+                if "[" in w:
+                    pre, rest = w.split("[", 1)
+                    body, suf = rest.split("]", 1)
+                    items = body.split(",")
+                    b.add("hdr:bracket-list" if len(items) > 1 else "hdr:range a-b")
+                    if any("-" in it for it in items):
+                        b.add("hdr:range a-b")
+                    widths = set()
+                    for it in items:
+                        lo, _, hi = it.partition("-")
+                        if len(lo) > 1 and lo.startswith("0"):
+                            widths.add(len(lo))
+                            if hi:
+                                b.add("hdr:padded-range")
+                                if len(hi) > len(lo) or not hi.startswith("0") and len(hi) == len(lo) and hi[0] != "0" and lo[0] == "0" and int(hi) >= 10 ** (len(lo) - 1):
+                                    b.add("hdr:bridge(padded lo, wider hi)")
+                        else:
+                            widths.add(1)
+                    if len(widths) > 1:
+                        b.add("hdr:mixed padding classes in one bracket")
+                    vals = [int(it.split("-")[0]) for it in items if it.split("-")[0].isdigit()]
+                    if len(vals) != len(set(vals)):
+                        b.add("hdr:same number in two paddings")
+                    if pre == "":
+                        b.add("hdr:numeric-only-name")
+                    pres[(pre, suf)] = pres.get((pre, suf), 0) + 1
+                else:
+                    pre, suf = w, ""
+                    if not any(ch.isdigit() for ch in w):
+                        b.add("hdr:digit-free-name")
+                    else:
+                        b.add("hdr:plain-name-with-number")
+                        if w.isdigit():
+                            b.add("hdr:numeric-only-name")
+                    suf = re.search(r"([^0-9]*)$", w).group(1) if any(ch.isdigit() for ch in w) else w
+                if suf and any(ch.isdigit() for ch in w):
+                    b.add("hdr:suffix-after-number")
+                sufs.add(suf if any(ch.isdigit() for ch in w) else None)
+                if re.search(r"[0-9][^0-9\[\]]+[0-9\[]", pre + "["):
+                    b.add("hdr:digits-inside-prefix")
+            if len({x for x in sufs if x is not None}) > 1:
+                b.add("hdr:several-suffix-groups")
+            if len(words) > 1 and len({x for x in sufs if x is not None}) <= 1 and sum(1 for w in words if any(ch.isdigit() for ch in w)) > 1:
+                b.add("hdr:several-prefixes")
+            if any(v > 1 for v in pres.values()):
+                b.add("hdr:several-brackets-one-prefix(MANYRANGES)")
+    if "0" in tags:
+        b.add("hdr:name-0")
+    return b
+
+
+def expand_top(h):
+    """the comma separated words of a header (commas inside brackets do not split)"""
+    out, cur, lvl = [], "", 0
+    for ch in h:
+        if ch == "," and lvl == 0:
+            out.append(cur)
+            cur = ""
+        else:
+            lvl += (ch == "[") - (ch == "]")
+            cur += ch
+    out.append(cur)
+    return out
+
+
 def nontrivial(c, r):
     hosts = {t for t, _ in c["recs"]}
     if len(hosts) < 2:
@@ -631,7 +745,7 @@ def run(ctx):
                 cases += subset_cases(["0", "00", "1", "01", "9", "10", "0x", "1x", "x", "00x"])
                 cases += subset_cases(["a1-ib", "a2-ib", "a02-ib", "a3", "a4", "b1a3", "b1a4", "a", "b-ib", "a03-ib"])
         dist = {"modes": {}, "streams": {}, "hosts_per_case": {}, "headers_expanded_by_pdsh": 0,
-                "bracketed_headers": 0, "process_launches": 0, "script_form": {0: "unchanged", 1: "D21-repaired", 2: "EMPTYSTEM-repaired",
+                "bracketed_headers": 0, "process_launches": 0, "branches": {b: 0 for b in BRANCHES}, "script_form": {0: "unchanged", 1: "D21-repaired", 2: "EMPTYSTEM-repaired",
                                                          3: "D21+EMPTYSTEM-repaired"}[repaired] +
                                ("+LONGRUN-limit-%d" % lim if lim else "") +
                                ("+MANYRANGES-limit-%d" % mr if mr else "")}
@@ -648,6 +762,9 @@ def run(ctx):
                 nh = len({t for t, _ in c["recs"]})
                 dist["hosts_per_case"][str(min(nh, 15))] = dist["hosts_per_case"].get(str(min(nh, 15)), 0) + 1
                 r = res["real"]
+                if c["stream"] != "odd":
+                    for tag in branches_of(c, r):
+                        dist["branches"][tag] = dist["branches"].get(tag, 0) + 1
                 if c["mode"] == "c":
                     dist["bracketed_headers"] += sum(1 for h, _ in r["blocks"] if "[" in h)
                 if nontrivial(c, r):
@@ -690,6 +807,8 @@ def run(ctx):
                         ctx.disagreement("small expander vs pdsh (long run)", "pdsh %d hosts, model %s" %
                                          (len(hosts), ml.split("=")[1]), {"longrun": nrun})
                 cov["evaluations"] += 1
+                if any("," in b[0] for b in res["real"]["blocks"]):
+                    dist["branches"]["hdr:range-limit-split(LONGRUN)"] += 1
                 dist["streams"]["longrun"] = dist["streams"].get("longrun", 0) + 1
                 for kind, sig, what in res["verdicts"]:
                     if kind == "offender":
@@ -719,12 +838,15 @@ def run(ctx):
                         ctx.disagreement("dshbak header model vs scripts/dshbak (many ranges)",
                                          "real `%s...` model `%s...`" % (hdr[:80], groups[0][:80]), {"manyranges": nr})
                 cov["evaluations"] += 1
+                if any("],n[" in b[0] or re.search(r"\],n\d", b[0]) for b in res["real"]["blocks"]):
+                    dist["branches"]["hdr:several-brackets-one-prefix(MANYRANGES)"] += 1
                 dist["streams"]["manyranges"] = dist["streams"].get("manyranges", 0) + 1
                 for kind, sig, what in res["verdicts"]:
                     if kind == "offender":
                         ctx.offender(sig, what[:300], {"case": {"mode": "c", "input": "n1: x, n3: x, .. n%d: x (%d odd numbers, "
                                                                 "identical bodies)" % (2 * nr - 1, nr), "odd_hosts": nr},
                                                        "real": [b[0][:120] for b in res["real"]["blocks"]][:2]})
+        dist["branches_never_hit"] = sorted(b for b, n in dist["branches"].items() if n == 0)
         dist["headers_expanded_by_pdsh"] = len(judge.pdsh_cache)
         dist["process_launches"] = judge.launches
         cov["distinct_nontrivial"] = len(distinct)
